@@ -1,5 +1,6 @@
 import RpcVerif.Lemmas.Wire
 import RpcVerif.Lemmas.Upgrade
+import RpcVerif.Lemmas.ServerInv
 /-
   C08 — nothing a peer does can crash the process (decoding part; dispatch and teardown follow
   from the server automaton, see Props/C08 additions below as they are built).
@@ -30,6 +31,26 @@ theorem C08_no_overread (h : Header) (frame e₁ e₂ : Bytes) :
 
 /-- Every upgrade byte a peer can send decodes to in-range flags. -/
 theorem C08_upgrade_total (d : UInt8) : (Upgrade.unpack d).valid = true := upgrade_unpack_valid d
+
+/-- Dispatch and teardown: no sequence of frames (any upgrade byte — all 256 —, any method,
+    decodable or not, junk), handler results and disconnect points crashes a server connection.
+    The crash sites of the model (nil method, zero reflect.Value in callService/sendResponse,
+    WaitGroup reuse at teardown) are guarded by five facts read from server.go on every run. -/
+theorem C08_server_never_crashes {cfg : S.Cfg} {tr : List S.Ev} {s : S.State} (h : S.Accepts (S.init cfg) tr s) :
+    s.crashed = none :=
+  S.never_crashes (by decide) h
+
+/-- Teardown is safe: once the connection's teardown has passed `drain`, nothing is left to
+    dispatch (so nothing can call wg.Add after wg.Wait), and past `wait` no handler is running. -/
+theorem C08_teardown_safe {cfg : S.Cfg} {tr : List S.Ev} {s : S.State} (h : S.Accepts (S.init cfg) tr s) (hu : S.UniqueSeq s) :
+    (s.reader = .drained ∨ s.reader = .waited ∨ s.reader = .served → S.undispatched s = []) ∧
+    (s.reader = .waited ∨ s.reader = .served → s.wg = 0) :=
+  (S.inv_accepts h hu).teardown
+
+/-- A rejected frame leaves the connection as it was (later well-formed frames are served as if it
+    had not been sent): an undecodable frame changes nothing but the decode queue. -/
+theorem C08_junk_is_ignored (s : S.State) (r : S.Req) (hj : r.junk = true) : S.serveRequest s r = s := by
+  simp [S.serveRequest, hj]
 
 /-! Non-vacuity: the frames that crashed the unrepaired tree are ordinary inputs here. -/
 example : (unmarshalRequest .pb [0x08] []).isPanic = false := (C08_decode_total .pb [0x08] []).1
